@@ -6,6 +6,9 @@ ALL = ["C%02d" % i for i in range(1, 21)]
 
 # property -> (technique, decided clauses (short), not decided / assumptions)
 CLAIMED = {
+ "C02": ("must-pass-through / dominance / who-may-call analysis of the call-completion protocol over go/ssa, with path-sensitive status tracking",
+         "C02.1 completion effects (send, close(doneChan), WaitGroup.Done) only in done/cancel, once each in order; C02.2 callers of done/cancel and their guards; C02.3 completion under the per-call mutex at all three sites; C02.4 bindReply marks the call replied on every path after Lock; C02.5 the lock taken in bindReply is released on every path of the read loop incl. Go() failure and the panic edge; C02.6 disconnect drains the pending table on every non-closed path before close/redial/hook; C02.7 a published call is written or completed on every return of AsyncCall; C02.8 read-loop recover+readDisconnected barrier; C02.9 call wait-group Add/Done pairing",
+         "a full user-supplied completion channel blocking done() (documented caller obligation); timing; that decoders terminate; panicking plugins inside AsyncCall (synthetic recover return excluded)"),
  "C07": ("typestate / transition-table analysis: field encapsulation, CAS-source tables, dominance, path-sensitive status-set tracking, call-graph reachability (go/ssa + VTA)",
          "C07.1 status/didCloseNotify encapsulated and atomic-only; C07.2 all 12+ transition sites: closing states entered only by CAS from explicit (or loaded, non-closed) sources, closed states never left without redial, blind stores only where the path owns the state; C07.3 Ok only after accept/dial hooks (incl. callback/dialWithRetry composition); C07.4 close-notify once; C07.5/9 write gate {Ok}|(ActiveClosing & Reply) and sentinel refusal; C07.6 index insert after hooks, delete on both close paths, SetID order; C07.7 takeover: nothing that may reach hub.delete after the new session is stored; C07.8 disconnect hook exactly once per close path and no other caller; C07.10 read gates",
          "conformance of whole histories to the state machine; SetID collision policy; the residual race of a passively disconnecting old session deleting a re-used id; timing"),
